@@ -266,7 +266,7 @@ def check_run(log):
             if len(dl) == 1:
                 stats["ev"] += 1
                 inc = dl[0]["income"]
-                if not (band["lo"] <= inc <= band["hi"]) or inc <= 0:
+                if not (band["lo"] <= inc <= band["hi"]) or inc < 0:  # a record of exactly 0 (payoff == fee) pays nothing
                     viol("update", "deliver-record-income", site,
                          f"{ts}: {name} x{amt} S={float(S)} K={info['strike']} mark={None if mark is None else float(mark)}: "
                          f"record income {float(inc):.10f}, rule gives {float(band['net']):.10f} "
